@@ -232,25 +232,30 @@ def register_plan(R, prop):
                          "implies(is_instance(event, 'PhaseFinished') and ghost('limit_at_start'), event.status.name == 'SKIP')",
         "limit_at_start": "engine.control.has_reached_the_failure_limit if is_instance(event, 'PhaseStarted') else ghost('limit_at_start')",
         "ran_inner_after_limit": "ghost('ran_inner_after_limit') or (is_instance(event, 'InnerSegment') and ghost('limit_at_start'))",
+        "started": "ghost('started') + (1 if is_instance(event, 'PhaseStarted') else 0)",
     }
     inv = {
         "index": "i",
         "modifies": {"engine.control.stop_event.flag": Bool, "engine.control.has_reached_the_failure_limit": Bool, "engine.control._failures_counter": Int,
                      "ghost:dfa": Int, "ghost:open_phase": Opq("Any"), "ghost:finished": Int, "ghost:limit_rule_ok": Bool, "ghost:limit_at_start": Bool,
-                     "ghost:ran_inner_after_limit": Bool},
+                     "ghost:ran_inner_after_limit": Bool, "ghost:started": Int},
         "clauses": ["ghost('dfa') == 1", "ghost('finished') == 0", "ghost('limit_rule_ok')", "not ghost('ran_inner_after_limit')",
-                    "not engine.control.stop_event.flag"],
+                    "not engine.control.stop_event.flag", "ghost('started') == i"],
     }
     ensures = {
         "C11_one_start_first_one_finish_last": "ghost('dfa') == 9 and ghost('finished') == 1 and is_instance(result[0], 'EngineStarted') and is_instance(result[-1], 'EngineFinished')",
         "C12_phases_after_limit_are_skipped_with_reason": "ghost('limit_rule_ok') and not ghost('ran_inner_after_limit')",
+        # "every later phase is reported as skipped because the limit was reached": reaching the limit does not end the stream - only an interruption does;
+        # every phase of the plan is announced (and, by the automaton above, closed)
+        "C12_every_phase_is_reported_unless_interrupted": "implies(not engine.control.stop_event.flag, ghost('started') == length(self.phases))",
+        "C11_every_phase_opened_once_in_plan_order_unless_interrupted": "implies(not engine.control.stop_event.flag, ghost('started') == length(self.phases))",
     }
     PhaseEl = Obj(PHASES + "Phase", name=Opq("PhaseName"), is_supported=Bool, is_enabled=Bool, skip_reason=Opq("SkipReason"))
     R.contract(
         CORE + "ExecutionPlan.execute",
         prop=prop,
         args={"self": Obj(CORE + "ExecutionPlan", phases=Seq(PhaseEl, kind="list")), "engine": Engine(abstract_limit=True, start_time=Real)},
-        ghost={"dfa": 0, "open_phase": None, "finished": 0, "limit_rule_ok": True, "limit_at_start": False, "ran_inner_after_limit": False},
+        ghost={"dfa": 0, "open_phase": None, "finished": 0, "limit_rule_ok": True, "limit_at_start": False, "ran_inner_after_limit": False, "started": 0},
         yield_effect=yield_effect,
         invariants={0: inv},
         ensures=_only(prop, ensures),
